@@ -54,9 +54,19 @@ RphOf(M) == <<Atan2Q(M[3][2], M[3][3]), AsinQ(0 - M[3][1]), Atan2Q(M[2][1], M[1]
 Init == \/ kind = "rph" /\ a \in 0..3 /\ b \in 0..3 /\ c \in 0..3 /\ emitted = 0
         \/ kind = "axis" /\ a \in 1..3 /\ b \in 0..3 /\ c = 0 /\ emitted = 0
         \/ kind = "diag" /\ a \in {-1, 1} /\ b \in {-1, 1} /\ c \in {-1, 1} /\ emitted = 0
-M == CASE kind = "rph" -> EulerMatrix(a, b, c) [] kind = "axis" -> ExpAxis(a, b) [] OTHER -> ExpDiag(<<a, b, c>>)
+        \/ kind = "pair" /\ a \in 0..15 /\ b \in 0..15 /\ c = 0 /\ emitted = 0
+\* kind "pair" (used by C18, resample_state: "interpolates attitude along the shortest rotation"): two level attitudes
+\* A = (roll a % 4, pitch 0, heading a \div 4) and B likewise; M is the relative rotation B A' the interpolation has to traverse.
+\* When its angle is below 180 degrees (trace > -1: 0, 90 or 120 degrees on the cube group) the attitude at the fraction t of the
+\* interval is the unique D_t A with D_t a rotation about the same axis by t times the angle, i.e. (D_t)^(1/t) = M - which the
+\* replay checks on the real function at t = 1/4, 1/2, 3/4 without ever forming an irrational matrix.
+PairA == EulerMatrix(a % 4, 0, a \div 4)
+PairB == EulerMatrix(b % 4, 0, b \div 4)
+Trace3(X) == X[1][1] + X[2][2] + X[3][3]
+M == CASE kind = "rph" -> EulerMatrix(a, b, c) [] kind = "axis" -> ExpAxis(a, b) [] kind = "diag" -> ExpDiag(<<a, b, c>>)
+       [] OTHER -> MMul(PairB, Tr(PairA))
 Emit == /\ emitted = 0 /\ emitted' = 1
-        /\ PrintT(<<"ATT", kind, a, b, c, M, IF kind = "rph" /\ CQ(b) # 0 THEN RphOf(M) ELSE <<>>>>)
+        /\ PrintT(<<"ATT", kind, a, b, c, M, IF kind = "rph" /\ CQ(b) # 0 THEN RphOf(M) ELSE IF kind = "pair" THEN <<Trace3(M)>> ELSE <<>>>>)
         /\ UNCHANGED <<kind, a, b, c>>
 Next == Emit
 Spec == Init /\ [][Next]_vars
@@ -80,5 +90,7 @@ ExpAxisGroupLaw == kind = "axis" => \A q \in 0..3 : MMul(ExpAxis(a, b), ExpAxis(
 Unit(k) == [i \in 1..3 |-> IF i = k THEN 1 ELSE 0]
 Sense == /\ kind = "diag" => Dot(Cross(Unit(1), MVec(M, Unit(1))), <<a, b, c>>) > 0
          /\ (kind = "axis" /\ b = 1) => Dot(Cross(Unit((a % 3) + 1), MVec(M, Unit((a % 3) + 1))), Unit(a)) > 0
+\* relative rotations of the cube group turn by 0, 90, 120 or 180 degrees (trace 3, 1, 0, -1): the shortest arc is unique unless 180
+PairAngles == kind = "pair" => Trace3(M) \in {3, 1, 0, -1} /\ (Trace3(M) = 3 <=> a = b)
 DiagCubed == kind = "diag" => MMul(M, MMul(M, M)) = I3 /\ MVec(M, <<a, b, c>>) = <<a, b, c>>    \* the axis is fixed
 =============================================================================
